@@ -323,7 +323,7 @@ fn dec_hist(u: &mut Unstructured<'_>, prop: &str) -> AResult<AnyCase> {
                 points.push(p);
                 keys.push(u.arbitrary::<u16>()?);
             }
-            AnyCase::Hist(HistCase { ty: *u.choose(&[HTy::I32, HTy::N64, HTy::I64])?, axes, points, perm_keys: keys })
+            AnyCase::Hist(HistCase { ty: *u.choose(&[HTy::I32, HTy::N64, HTy::I64])?, axes, points, perm_keys: keys, edges_mode: 0 })
         }
     })
 }
